@@ -105,11 +105,8 @@ def get_rel(env, a, b, kind, domain):
                 return rh
             return get_rel(env, mk("field", a, 1), mk("field", b, 1), "f64", REL4)
     if kind in ("PartialOrd<TwoFloat,f64>", "PartialOrd<f64,TwoFloat>"):
-        # the mixed comparison: an invalid TwoFloat is unordered, a valid one compares its high word with the number and then its
-        # low word with zero (C06 / R12c)
+        # the mixed comparison compares the high word with the number and then the low word with zero (C06 / R12c)
         x, c = (a, b) if kind == "PartialOrd<TwoFloat,f64>" else (b, a)
-        if not eval_bool(mk("call", IS_VALID, x), env):
-            return "un"
         r = get_rel(env, mk("field", x, 0), c, "f64", REL4)
         if r == "eq":
             r = get_rel(env, mk("field", x, 1), mk("const", "f64", 0), "f64", REL4)
@@ -178,6 +175,27 @@ def feasible_vs_const(env, x, c, kind, domain):
                     lo, lo_strict = k, True
             elif rr == "eq":
                 eqv = k
+    if kind in vg.INT_BITS:
+        # integers: strict bounds become inclusive ones, and the type's own range applies
+        n_ = vg.INT_BITS[kind]
+        tlo, thi = ((-(1 << (n_ - 1)), (1 << (n_ - 1)) - 1) if kind.startswith("i") else (0, (1 << n_) - 1))
+        if lo is not None and lo_strict:
+            lo, lo_strict = lo + 1, False
+        if hi is not None and hi_strict:
+            hi, hi_strict = hi - 1, False
+        lo = tlo if lo is None else max(lo, tlo)
+        hi = thi if hi is None else min(hi, thi)
+        out = []
+        for r in domain:
+            if r == "un":
+                continue
+            if eqv is not None:
+                ok = (r == "lt" and eqv < cv) or (r == "eq" and eqv == cv) or (r == "gt" and eqv > cv)
+            else:
+                ok = (r == "lt" and lo < cv) or (r == "gt" and hi > cv) or (r == "eq" and lo <= cv <= hi)
+            if ok:
+                out.append(r)
+        return tuple(out)
     isnan_known = env.val.get(("bool", mk("call", IS_NAN, x)))
     if isnan_known is True:
         nan = True
@@ -230,6 +248,9 @@ def eval_bool(c, env):
         dom = REL4 if ty in ("f64", "f32") else REL3
         r = get_rel(env, a, b, ty, dom)
         return r in OPS[op]
+    if t == "i" and c[1] == "sub_ovf" and c[2] in vg.INT_BITS and c[2].startswith("u") and len(c) == 5:
+        # x - y wraps for unsigned operands exactly when x < y (`x.checked_sub(1)` is None iff x == 0)
+        return get_rel(env, c[3], c[4], c[2], REL3) == "lt"
     if t == "call":
         n = c[1]
         if n.startswith(PORD) and len(c) == 4:
@@ -384,11 +405,13 @@ def expand_ordering_leaves(tree, flip=False):
             return ("rel", v[2], v[3], pcmp_kind(v[1]), {r: canon(r) for r in REL4})
         # Some(o) with o taken out of a partial_cmp result (`Some(a.partial_cmp(b)?)`, an arm `Some(o) => Some(o)`): that result
         if tag(v) == "agg" and v[1][0] == "adt" and v[1][3] == "Some" and len(v[2]) == 1:
-            o = v[2][0]
+            o = v[2][0]; rev = False
+            while tag(o) == "call" and o[1] == "core::cmp::Ordering::reverse" and len(o) == 3:
+                o = o[2]; rev = not rev      # `.map(Ordering::reverse)`
             if tag(o) == "field" and o[2] == 0 and tag(o[1]) == "downcast" and o[1][2] == "Some":
                 c = o[1][1]
                 if tag(c) == "call" and len(c) == 4 and pcmp_kind(c[1]):
-                    return ("rel", c[2], c[3], pcmp_kind(c[1]), {r: canon(r) for r in REL4})
+                    return ("rel", c[2], c[3], pcmp_kind(c[1]), {r: canon(FLIP[r] if rev else r) for r in REL4})
         return l
     return map_leaves(tree, f)
 
